@@ -343,7 +343,9 @@ pub fn run_check(check: &'static dyn Check, tier: Tier, seed: u64, jobs: usize) 
         .unwrap_or(check.watchdog_s(tier));
     let batch = ((n + (jobs as u64 * 6) - 1) / (jobs as u64 * 6)).max(1);
     let nbatches = (n + batch - 1) / batch;
-    let next = Arc::new(AtomicU64::new(0));
+    // debugging aid: CAOSIM_FIRST_CASE=<case> starts at the batch that holds that case
+    let first_batch = std::env::var("CAOSIM_FIRST_CASE").ok().and_then(|s| s.parse::<u64>().ok()).map(|c| c / batch).unwrap_or(0);
+    let next = Arc::new(AtomicU64::new(first_batch));
     let agg = Arc::new(Mutex::new(Agg::default()));
     let registry = Arc::new(Mutex::new(BTreeMap::new()));
     let stop = Arc::new(AtomicBool::new(false));
@@ -484,6 +486,7 @@ pub fn run_check(check: &'static dyn Check, tier: Tier, seed: u64, jobs: usize) 
 
     let known = load_known(id);
     let mut unknown = 0u64;
+    let mut slow_cases = 0u64;
     let mut known_hit = vec![];
     let mut harness_errors = agg.harness_errors.clone();
     let replay_dir = verif_root().join("replays");
@@ -546,7 +549,18 @@ pub fn run_check(check: &'static dyn Check, tier: Tier, seed: u64, jobs: usize) 
                 }
             }
         }
-        let sigs = replay_in_subprocess(id, &path, watchdog_s);
+        // A worker killed by the watchdog is a *suspected* hang. The simulation is deterministic, so
+        // a real one hangs again; the replay gets ten times the CPU allowance, and a case that
+        // finishes within it was merely slow (a loaded machine, an expensive program): it is
+        // noted, not reported.
+        let suspected_hang = v.sig.get("kind").and_then(|k| k.as_str()) == Some("crash") && v.sig.get("how").and_then(|k| k.as_str()) == Some("hang");
+        let sigs = replay_in_subprocess(id, &path, if suspected_hang { watchdog_s * 10 } else { watchdog_s });
+        if suspected_hang && sigs.is_empty() {
+            slow_cases += 1;
+            println!("NOTE: case {case} was stopped by the watchdog but finishes when replayed with ten times the allowance: slow, not hung ({})", v.what);
+            let _ = std::fs::remove_file(&path);
+            continue;
+        }
         if sigs.iter().any(|s| s == &v.sig) {
             unknown += 1;
             println!("violation: {} [signature {}; {count} occurrence(s)]", v.what, v.sig);
@@ -625,6 +639,7 @@ pub fn run_check(check: &'static dyn Check, tier: Tier, seed: u64, jobs: usize) 
             "known_findings_hit": known_hit,
             "distinct_violation_signatures": groups.len(),
             "harness_errors": harness_errors,
+            "slow_cases_stopped_by_watchdog_and_finished_on_replay": slow_cases,
             "exhaustive": false,
         },
         "assumptions": check.assumptions(),
@@ -642,7 +657,7 @@ pub fn run_check(check: &'static dyn Check, tier: Tier, seed: u64, jobs: usize) 
         "caosim: property={id} cases={} runs={evaluations} distinct_nontrivial={} violations={unknown} known={} wall={wall:.1}s evidence={}",
         agg.cases_done,
         agg.distinct.len(),
-        groups.len() as u64 - unknown - harness_errors.iter().filter(|e| e.starts_with("violation did not replay")).count() as u64,
+        groups.len() as u64 - unknown - slow_cases - harness_errors.iter().filter(|e| e.starts_with("violation did not replay")).count() as u64,
         evpath.display()
     );
     if unknown > 0 {
@@ -670,7 +685,11 @@ pub fn run_replay(check: &'static dyn Check, path: &std::path::Path) -> i32 {
         return 2;
     };
     let expect = rp.get("expect").cloned().unwrap_or(Value::Null);
-    let sigs = replay_in_subprocess(id, path, check.watchdog_s(Tier::Quick));
+    // a recorded hang was confirmed with ten times the allowance (see run_check): same here
+    let expects_hang = expect.get("how").and_then(|k| k.as_str()) == Some("hang");
+    let tier = if rp.get("tier").and_then(|t| t.as_str()) == Some("thorough") { Tier::Thorough } else { Tier::Quick };
+    let allowance = check.watchdog_s(tier) * if expects_hang { 10 } else { 1 };
+    let sigs = replay_in_subprocess(id, path, allowance);
     for s in &sigs {
         println!("replay: signature {s}");
     }
